@@ -162,7 +162,8 @@ func runBreakerHistory(t *testing.T, calls []BCallD, hist []BOpD) (obs []string,
 }
 
 var breakerPeriods = []int64{10, 100, 970, 1_000_000_000, 60_000_000_000}
-var breakerDelays = []int64{0, 1, 10_000_000, 1_000_000_000, 60_000_000_000}
+// incl. the "stay open for good" idiom: the largest Duration, and one hour less
+var breakerDelays = []int64{0, 1, 10_000_000, 1_000_000_000, 60_000_000_000, 1<<63 - 1, 1<<63 - 1 - 3_600_000_000_000}
 
 type bgen struct {
 	calls         []BCallD
@@ -250,7 +251,11 @@ func genBreakerHistory(r *Rng, g bgen, n int) []BOpD {
 				t += nb - abs - int64(r.Intn(2))
 			}
 		case 8:
-			t += Pick(r, []int64{g.delay - 1, g.delay, g.delay + 1})
+			if g.delay < 1_000_000_000_000 { // the clock cannot be advanced by centuries
+				t += Pick(r, []int64{g.delay - 1, g.delay, g.delay + 1})
+			} else {
+				t += 3_600_000_000_000
+			}
 		case 9:
 			if g.period > 0 {
 				t += Pick(r, []int64{g.period, g.period - 1, g.period * 9 / 10, g.period*9/10 + 1, 2 * g.period})
@@ -258,7 +263,7 @@ func genBreakerHistory(r *Rng, g bgen, n int) []BOpD {
 		case 10:
 			t += Pick(r, []int64{2, 3, 1_000_000 - 1, 5_000_000_000, 4_999_999_999, 2_000_000_000})
 		case 11:
-			if g.delay > 0 {
+			if g.delay > 0 && g.delay < 1_000_000_000_000 {
 				t += r.I64n(g.delay)
 			}
 		default:
